@@ -34,8 +34,9 @@ META2 = {
         engine=E3,
         explanation="r_resolve.c: one line AT<name><suffix><args>LF, typed name over the whole legal alphabet in either case, table of 3 commands in 2 groups with symbolic names (prefixes of one "
                     "another, duplicates, any order are all inside), flags, handler subsets. The harness computes the reference resolution (first enabled exact match, else unique enabled "
-                    "abbreviation, implicit-write cut-off, request type from the suffix incl. the '=?' rule) and compares it with the log of handler invocations.",
-        bounds={"quick": "11 shapes: names of 1..3 typed characters against names of 1..2 characters, all four suffixes, 0..2 argument bytes; " + E3_WORLD +
+                    "abbreviation, implicit-write cut-off, request type from the suffix incl. the '=?' rule) and compares it with the log of handler invocations and, on the output side, with the kind of answer "
+                    "(a write / run request is answered by a result code alone; two jobs give the command half 16 bytes so that a READ / TEST answer of a command with a variable fits).",
+        bounds={"quick": "11 shapes (+2 with a 14..16-byte command half): names of 1..3 typed characters against names of 1..2 characters, all four suffixes, 0..2 argument bytes; " + E3_WORLD +
                          "; plus kernel job k_lanes.c: the 2-bit match table for a table of 200 commands in 2 groups (symbolic indices i != j: read-after-write, no interference, disabled => NOT_MATCH, "
                          "prepare_parse_command, to_upper / legal alphabet over all 256 characters)",
                 "thorough": "same shapes; k_lanes with 600 commands"},
@@ -128,7 +129,7 @@ META2 = {
         engine=E2 + " + " + E3,
         explanation="s_step.c obligations from any RI state: never both machines in FLUSH_IO_WRITE (part of RI); at most one io->write attempt per call, only by a machine that is flushing, offering the byte "
                     "under its own cursor; cursor advances by one iff accepted; a flush is entered only from its wait state with the cursor on the first byte of a unit and left only at the NUL of the "
-                    "trailing newline; the other machine's buffer is not written meanwhile (C03 frames). Together these imply whole, non-interleaved units for every schedule and history."
+                    "trailing newline; a machine that is not formatting does not have its buffer (its half of a shared buffer of any size, odd sizes included; halves computed by the harness) modified. Together these imply whole, non-interleaved units for every schedule and history."
                     " r_evq.c (black box, public API, events only): two triggers with concrete (command, read|test kind) at symbolic steps (first inside a 3-step window, second 0..4 steps later), one io->write refusal at a symbolic step, queue capacity 1, 2 or 3; monitors: the output parses into whole newline-framed units, each with exactly the producer's text (+B=207 / +C=), one per accepted event.",
         bounds={"quick": "109 step jobs + 6 event-only runs (50 calls)", "thorough": "1516 step jobs + 162 event-only runs"},
         outside="a command response and an event line in flight together are decided at step level only (r_events.c, the line-level scenario with both machines active, is kept unregistered: DESIGN.md 9.6); the argument from the lemmas to the stream property is on paper (DESIGN.md C11)",
@@ -137,16 +138,17 @@ META2 = {
     "C12": dict(
         engine=E2 + " + " + E3,
         explanation="s_step.c: a call in which the read is refused leaves the command FSM, its buffer and the variables unchanged and makes no callback; a refused write leaves the flushing machine unchanged; "
-                    "reading states attempt exactly one read, other states none. r_twin.c MODE 1: the same line run eagerly and under a symbolic schedule with up to 2 read and 2 write refusals gives the "
-                    "same output bytes, handler log, write-handler arguments and variable values.",
-        bounds={"quick": "109 step jobs + 2 twin shapes (ATnL, ATn?L) with <= 1 read and <= 1 write refusal at arbitrary steps", "thorough": "1516 step jobs + 4 twin shapes with <= 2 refusals of each kind"},
+                    "reading states poll the input (at least one attempt; not 'exactly one': the property does not forbid draining several available bytes per call), other states never read. r_twin.c MODE 1: the same line run eagerly and under a symbolic schedule - up to R read and R write refusals at symbolic service steps plus one refusal tied to a symbolic BYTE boundary "
+                    "(the first attempt to read byte `cut` is answered 'not yet', also between two reads of one call) - gives the same output bytes, handler log, write-handler arguments and variable values.",
+        bounds={"quick": "109 step jobs + 3 twin shapes (ATnL run, gxL malformed line with a possible CR, ATnRnL CR inside the name) with <= 1 read and <= 1 write refusal at arbitrary steps + the byte-boundary refusal", "thorough": "1516 step jobs + 4 twin shapes with <= 2 refusals of each kind"},
         outside="more refusals in one line at line level (the step lemma covers any number)",
         assumptions=[RI_NOTE, FAMILY, "io->read returns 0 or 1 and leaves *ch alone when it returns 0"],
         level_text="inductive stutter lemma plus bounded self-composition"),
     "C13": dict(
         engine=E2 + " + " + E3,
         explanation="s_api.c: from any ring state satisfying the ring clause, trigger appends iff fewer than CAPACITY entries wait, else BUFFER_FULL and nothing changes; buffer_full, event_buffered and "
-                    "get_processed_command agree with the abstract queue. s_step.c: only the idle event FSM pops, exactly the oldest entry, which becomes the event in progress; no other call changes the queue."
+                    "get_processed_command agree with the abstract queue. s_step.c: only the idle event FSM pops, exactly the oldest entry, which becomes the event in progress; no other call changes the queue; the event in progress ends (a terminal handler code returns the event FSM to idle, DATA_OK leads to one final line, "
+                    "the after-flush states return to idle) - so an accepted event is processed once and the next one gets its turn."
                     " r_evq.c (black box, public API, events only): two triggers with concrete (command, read|test kind) at symbolic steps (first inside a 3-step window, second 0..4 steps later), one io->write refusal at a symbolic step, queue capacity 1, 2 or 3; monitors: cat_is_unsolicited_buffer_full predicts every trigger result, a trigger is refused only when the queue is full, every accepted event's handler runs exactly once in acceptance order "
                     "and its line is emitted exactly once.",
         bounds={"quick": "capacities 1,2,3: 6 API functions each + 14 step pairs each + 2 event-only runs each (two events)", "thorough": "capacities 1,2,3,8; 162 event-only runs (all 9 kind pairs, 3 windows, handler codes DATA_OK and OK)"},
@@ -167,7 +169,7 @@ META2 = {
     "C15": dict(
         engine=E2 + " + " + E3,
         explanation="safety: s_step.c with two consecutive calls - if the first returns OK, an immediately repeated call with no input returns OK, invokes no callback, writes nothing, changes nothing, and no event "
-                    "is queued or in progress. liveness: local progress obligations (no starvation at the flush handshake in either direction, accepted byte advances the cursor, section ends advance, computing "
+                    "is queued or in progress. liveness: local progress obligations (a reading state whose read is refused, with no event pending, reports OK - waiting for input is not work; no starvation at the flush handshake in either direction, accepted byte advances the cursor, section ends advance, computing "
                     "states change something) plus the explicit linear step bound of the r_line shapes and of the event-only runs (r_evq.c: two events and a write refusal end in OK with nothing queued within 50 calls).",
         bounds={"quick": "queue capacities 1 (all quick pairs) and 2 (event-related pairs), 5 line shapes, 6 event-only runs", "thorough": "capacities 1,2,3,8"},
         outside="a global ranking-function proof of termination is not attempted; hold is not 'stimulus-free'",
